@@ -558,6 +558,18 @@ class AHistory:
                 h = self.pick(mid)
                 self.manual[mid][abs(self.live[h][1])] += 1
                 self.call(mid, 'a_incref', f'h{h}')
+        elif k == 'image' and len(names) >= 2 and b._last_len is None:
+            # (pre)image over one adjacent pair; the partner is quantified
+            i = rng.randrange(len(names) - 1)
+            x, y = b._level_to_var[i], b._level_to_var[i + 1]
+            if rng.random() < 0.5:
+                x, y = y, x
+            if rng.random() < 0.5:
+                rn, q = f'n:{x}=n:{y}', f'n:{y}'
+            else:
+                rn, q = f'l:{b.vars[x]}=l:{b.vars[y]}', f'l:{b.vars[y]}'
+            self.call(mid, 'a_image' if rng.random() < 0.5 else 'a_preimage', P(), P(), rn, q,
+                      rng.randint(0, 1), outs=[self.fresh()])
         elif k == 'reject':
             self.rejected(mid)
         elif k == 'xcopy' and self.nmgr > 1:
@@ -623,8 +635,14 @@ class AHistory:
 
     def release_manual(self, mid):
         for u, c in list(self.manual[mid].items()):
+            if c <= 0:
+                continue
             hs = [h for h in self.handles_of(mid) if abs(self.live[h][1]) == u]
-            while c > 0 and hs:
+            if not hs:
+                # every Function on the node is gone: the manual reference alone keeps it
+                hs = [self.fresh()]
+                self.call(mid, 'a_add_int', u, outs=hs)
+            while c > 0:
                 c -= 1
                 self.manual[mid][u] -= 1
                 self.call(mid, 'a_decref', f'h{hs[0]}')
@@ -660,7 +678,7 @@ class AHistory:
 
 
 W_STATIC = dict(var=5, const=1, apply=9, ite=2, fop=5, cmp=4, let=3, quantify=2, cube=1, foa=1, dup=4,
-                succ=4, read=3, drop=9, gc=4, sift=1, order=1, declare=1, manual=1, reject=1)
+                succ=4, read=3, drop=9, gc=4, sift=1, order=1, declare=1, manual=1, reject=1, image=2)
 W_DYN = dict(var=5, const=1, apply=10, ite=3, fop=6, cmp=5, let=3, quantify=2, cube=1, dup=3,
              succ=3, read=1, drop=7, gc=2, sift=1, order=1, dyn=2, foa=1)
 
@@ -721,8 +739,8 @@ def check_C08(ctx):
         _copy_probe(ctx)
         # 1. reordering disabled: everything, incl. explicit collections and reorderings
         n = 0
-        for k in range(70 if quick else 900):
-            if ctx.time_left() < (30 if quick else 200):
+        for k in range(160 if quick else 2500):
+            if ctx.time_left() < (34 if quick else 200):
                 ctx.notes.append('static histories cut by time budget')
                 break
             nv = rng.randint(2, 5)
@@ -745,8 +763,8 @@ def check_C08(ctx):
         ctx.count('histories:static', n)
         # 2. dynamic reordering on (threshold lowered so that it fires inside operations)
         n = 0
-        for k in range(45 if quick else 600):
-            if ctx.time_left() < (12 if quick else 60):
+        for k in range(100 if quick else 1500):
+            if ctx.time_left() < (18 if quick else 60):
                 ctx.notes.append('dynamic histories cut by time budget')
                 break
             nv = rng.randint(3, 7)
